@@ -1213,9 +1213,53 @@ func runNames(seed uint64, id int) (c Case) {
 	return c
 }
 
+// ---------------------------------------------------------------- Ingress path validator (model correspondence)
+
+func runPaths(seed uint64, id int) (c Case) {
+	r := vh.NewRng(seed).Fork(uint64(id))
+	c = Case{ID: id, Class: "paths", Seed: seed, Scheme: "ingress_path"}
+	defer func() {
+		if p := recover(); p != nil {
+			c.Obs.Panic = fmt.Sprint(p)
+		}
+	}()
+	var p string
+	switch r.Intn(6) {
+	case 0:
+		p = vh.Pick(r, []string{"/{", "/a{1,3}", "/a{1", "/a{b}", "/a{1}b{c}", "/etc/x", "/x/etc/", "/a/root", "/var", "/a\\n", "/a\\r", "/a\\rb", "/a\\", "/a\\\\", "/a\"b", "/a\\\"b", "", "a", "/", "/a b", "/a;b", "/a\tb", "/a${b", "/a$b{", "/a'b", "/a#b", "/a}b{"})
+	default:
+		n := r.Intn(8)
+		b := []byte{'/'}
+		if r.Chance(1, 12) {
+			b = nil
+		}
+		alpha := "aAz{}19,\\\"'$;# \t\n\f\r/.-_()[]*+?^|{}{\\"
+		for i := 0; i < n; i++ {
+			b = append(b, alpha[r.Intn(len(alpha))])
+		}
+		p = string(b)
+	}
+	c.Args = nil
+	ing := simpleIngress("a", "web", "x.example.com", []string{p}, "svc", nil)
+	acc := true
+	for _, f := range k8s.VerifValidateIngress(ing, false, false) {
+		if strings.Contains(f, "path") {
+			acc = false
+		}
+	}
+	c.Obs.Files = []FileObs{{Name: "path", Bytes: vh.Bytes(p)}}
+	if acc {
+		c.Obs.Accepted = []string{"path"}
+	}
+	return c
+}
+
 func runCase(seed uint64, id int, class string) Case {
 	if class == "names" {
 		return runNames(seed, id)
+	}
+	if class == "paths" {
+		return runPaths(seed, id)
 	}
 	r := vh.NewRng(seed).Fork(uint64(id))
 	w := genWorld(r, class)
@@ -1254,6 +1298,10 @@ func main() {
 	}
 	for i := 0; i < a.N; i++ {
 		out.Emit(runCase(a.Seed, id, "names"))
+		id++
+	}
+	for i := 0; i < a.N; i++ {
+		out.Emit(runCase(a.Seed, id, "paths"))
 		id++
 	}
 }
